@@ -155,11 +155,11 @@ func (s *ExecServer) Undef(id string) {
 
 // ExecResult is one answer of the reference executor.
 type ExecResult struct {
-	Data     *J       // the data member ((n) = null)
-	NErrors  int      // number of errors
-	ErrPaths []*J     // each a JSON array of path elements (resolver errors / non-null violations)
-	Invalid  string   // non-empty: the request itself is not executable against the schema
-	Raw      string   // the answer line
+	Data     *J     // the data member ((n) = null)
+	NErrors  int    // number of errors
+	ErrPaths []*J   // each a JSON array of path elements (resolver errors / non-null violations)
+	Invalid  string // non-empty: the request itself is not executable against the schema
+	Raw      string // the answer line
 }
 
 // Exec runs a dumped document in the given mode ("mono" | "sub").
